@@ -70,7 +70,7 @@ CHECKS = {
         'one hand-written matcher per regex with the typos and flags of the source) as the same kind with the same content - for ANY string/URI/Bin/display-name/XStr/unit payload, '
         'for every valid date and time, for every date-time text isoformat() can produce with a whole-minute offset, and for numbers as the exact %f token; Remove is spelled x: under pre-3.0 and -: otherwise and both read back. '
         'Tied by tree-equality of the writer model with json.loads(hszinc.dump()) and value-equality of the reader model with hszinc.parse on the same documents.',
-   note='Nesting is proved for lists and dicts to any depth over leaves that round-trip (C02_nested; dicts with distinct keys that are not grid-like). PARTIAL: 2.0-family versions and rows that leave cells out are not covered by the whole-grid theorem (correspondence + search cover them). Numbers never enter Coq as floats: %f formatting and float() are CPython oracles '
+   note='Nesting is proved for lists and dicts to any depth over leaves that round-trip (C02_nested; dicts with distinct keys that are not grid-like). The whole-grid theorem holds for either version family (C02_grid_any_version; under 2.0 over strings, URIs, Bins, markers, nulls, booleans, Remove: C02_grid_2_0). PARTIAL: rows that leave cells out come back with those cells as nulls (the writer writes every cell), so the round-trip theorem asks for full rows; C05_whole_object covers reading rows that omit columns. Numbers never enter Coq as floats: %f formatting and float() are CPython oracles '
         '(hypothesis f6_shape on the token, sampled on every run). json.dumps/json.loads, iso8601, pytz, XStr decoding are outside the model. A dict with keys meta, cols and rows is read as a grid (format ambiguity, excluded from the domain). '
         'Print Assumptions: closed under the global context.',
    technique='Coq proofs about regex-matcher models + extracted-model correspondence (writer trees, reader values) + round-trip search',
@@ -105,11 +105,11 @@ CHECKS = {
    design='DESIGN.md §3 C01'),
  'C03': dict(
    text='Machine-checked proof (Coq): WHOLE DOCUMENTS - a 3.0 document of version line, column line (distinct names) and any number of rows of comma-separated cells is read by the model of the grid rule as exactly the grid it denotes, '
-        'whatever spelling each cell uses, provided the scalar rule reads the cell\'s value from its text before a comma / line end / bracket (C03_whole_document; with grid and column metadata: C03_whole_document_with_metadata; version 2.0 with the reader\'s version gate: C03_whole_document_2_0; one or several grids per document through parser.parse: C03_documents); that proviso is proved for every string and URI with every legal escape, every number spelling '
+        'whatever spelling each cell uses, provided the scalar rule reads the cell\'s value from its text before a comma / line end / bracket (C03_whole_document; with grid and column metadata: C03_whole_document_with_metadata; version 2.0 with the reader\'s version gate: C03_whole_document_2_0; one or several grids per document through parser.parse: C03_documents; rows in any spelling the row rule reads - plain, with blanks around the commas and before the line end, with empty cells as nulls, ended by CR LF: C03_whole_document_any_rows, C03_row_spellings); that proviso is proved for every string and URI with every legal escape, every number spelling '
         '(sign, digits, fraction, exponent e / e+ / e-, unit), every date and time, the letter scalars, plain references, lists, dicts and nested grids of such elements to any depth. Also: final newline optional for every document, empty input gives no grid, LF and CRLF line ends, z/Z, '
         '_ digit separators, blanks around commas (per rule); further spellings as evaluated examples. Decided otherwise by the reader model vs hszinc.parse on documents of an independent grammar-directed ZINC writer (value x independently chosen spelling: blanks around commas, '
         'empty cells, _ separators, exponents, INF/-INF/NaN, every escape form, CRLF, trailing commas, T/t, Z/z, with / without zone name and final newline), str and bytes in several charsets, single flag.',
-   note='PARTIAL: the whole-document theorems take single commas between cells; empty cells, blanks around commas inside whole documents, _ separators and upper-case E inside whole documents, CRLF inside whole documents and 2.0 documents with metadata rest on the per-rule theorems + the tie + search. The independent writer is harness code (harness/props/c03.py). Charset decoding is CPython\'s. Print Assumptions: closed under the global context.',
+   note='Number spellings with _ separators and upper-case E (C03_number_spellings_general) and lists with inner blanks / a trailing comma (C03_list_spellings) are proved through the whole alternation. PARTIAL: CRLF after the version and column lines, blanks in the column line, date-times without a zone name and 2.0 documents with metadata are proved per rule only; inside whole documents they rest on the tie + search. The independent writer is harness code (harness/props/c03.py). Charset decoding is CPython\'s. Print Assumptions: closed under the global context.',
    technique='Coq lemmas about the reader model + correspondence and search on independently written documents',
    design='DESIGN.md §3 C03'),
  'C04': dict(
